@@ -11,7 +11,7 @@ PROPS["C34"] = dict(
     bounds="load_account: every path x (entry present?, result of mark_warm, result of warm_preloaded_addresses.contains); sload: every path x (slot present?, result of "
            "mark_warm, account created in this transaction?); load_accounts: every path x (SHANGHAI enabled?, PRAGUE enabled?); one step from an arbitrary journal state; "
            "mark_warm / mark_cold: all 2^8 status bytes, all 2^512 slot value pairs",
-    outside="forgetting on revert (journal_revert: AccountWarmed / StorageWarmed / AccountCreated arms - a loop over the journal and hash maps), which addresses "
+    outside="the composition of per-entry un-warming into whole-frame forgetting (the per-entry facts are decided by the job shared with C06), which addresses "
             "and keys load_access_list / the EIP-7702 handler hand to initial_account_load, precompile addresses in warm_preloaded_addresses (set_precompiles), that the "
             "instructions charge the price matching the reported flag (the price maps themselves are decided under C14), the per-transaction statement",
     assumptions=["std HashMap::entry / HashSet::contains / Vec::push behave as documented (they are uninterpreted in the encoding: their results are free variables, "
@@ -23,7 +23,8 @@ PROPS["C34"] = dict(
                H("c34::c34_loaded_accounts_start_warm", timeout=600, mem_gb=4, bounds="all balances / nonces", stubs_expected=_C34_RS),
                H("c34::c34_slot_mark_warm_cold", timeout=600, mem_gb=4, bounds="all original/present values, both marks"),
                H("c34::c34_twin_must_fail", expect_fail=True, timeout=600, mem_gb=4, bounds="vacuity twin", stubs_expected=_C34_RS)],
-    jobs=[dict(name="e3::warming_kernel", fn=_jobs_c34.run_warm_kernel)],
+    jobs=[dict(name="e3::warming_kernel", fn=_jobs_c34.run_warm_kernel),
+          dict(name="e3::journal_revert_per_entry", fn=__import__("jobs_c06").run_journal_revert)],  # shared with C06: un-warming on revert
 )
 CLAIMS["C34"] = dict(
     text="The functions that decide whether an access is cold are executed symbolically from their MIR (provenance-flow encoding, every path, every value of the map "
@@ -32,7 +33,7 @@ CLAIMS["C34"] = dict(
          "kind, an absent slot is inserted with the value returned (zero without a database read for an account created in this transaction); load_accounts pre-warms "
          "the coinbase exactly from SHANGHAI and the block-hash contract exactly from PRAGUE; initial_account_load never returns successfully without having walked the key list, "
          "reuses a present account, and per key keeps a present slot and loads an absent one from the database for exactly (address, key). CBMC decides mark_warm/mark_cold for every status byte and slot.",
-    note="Partial: the first-access half of the property on the kernel functions. Forgetting on revert (journal_revert), which entries the access-list / authority handlers pass on, precompile pre-warming "
+    note="Partial: the first-access half of the property on the kernel functions, and per journal entry that a revert cools exactly what the entry warmed and nothing else (shared with C06). Which entries the access-list / authority handlers pass on, precompile pre-warming "
          "and the link from the reported flag to the gas charged by each instruction are outside (journal loops and hash maps, DESIGN §2); warm/cold prices are under C14.",
     technique="MIR provenance-flow symbolic execution + SMT path query (z3+cvc5) for load_account / sload / load_accounts; Kani/CBMC for the cold-mark bit operations; native replay",
     engine="kani-cbmc + smt-mir",
